@@ -679,10 +679,11 @@ func (m *Machine) RunPath(h *HarnessSpec, prefix []bool, wantSample bool) (res P
 // ---- exploration driver ----
 
 type HarnessSpec struct {
-	Name     string
-	Fn       *ssa.Function
-	Limits   Limits
-	MaxPaths int
+	Name      string
+	Fn        *ssa.Function
+	Limits    Limits
+	MaxPaths  int
+	StopAfter int // candidates outside the known regions after which the sweep stops (default 6)
 }
 
 type HarnessResult struct {
@@ -806,7 +807,11 @@ func Explore(P *Program, h *HarnessSpec, workers int, sampleEvery int, maxSample
 						nv++
 					}
 				}
-				if nv >= 6 && len(frontier) > 0 {
+				stopAfter := h.StopAfter
+				if stopAfter == 0 {
+					stopAfter = 6
+				}
+				if nv >= stopAfter && len(frontier) > 0 {
 					res.StoppedOnViolations = true
 				}
 				mu.Unlock()
